@@ -9,7 +9,7 @@ from vf.props.c03 import born_rows, ref_grads
 
 PROPERTY = "C06"
 RULE = ("Generated training runs: state type (3), n 1..3, N 1..9 rows (bases per row for complex/density, first row all-Z), "
-        "pos_batch_size 1..5, neg_batch_size None/1..5, k 0..3, lr in [1e-3,1], epochs 1..3, optional StepLR(step_size=1,gamma), "
+        "pos_batch_size 1..5, neg_batch_size None/1..5, k 0..3, lr in [1e-3,1], epochs 1..3, optional StepLR(step_size=1,gamma), starting_epoch in {0,1,2,3,5}, "
         "drawn torch seed. Instrumentation through public API only: a recording torch.optim.SGD subclass passed as optimizer= "
         "(snapshots parameters, .grad and lr at every step), compute_batch_gradients and rbm_am.gibbs_steps wrapped on the "
         "instance (batch, negative batch, bases, chain end state v_k). Oracle for EVERY step t: .grad of each named parameter = "
@@ -43,7 +43,8 @@ def runs(draw, tier):
         rows.append({"basis": b, "u": draw(U01)})
     return {"state": sc, "rows": rows, "pbs": pbs, "nbs": nbs,
             "k": k, "lr": draw(st.floats(1e-3, 1.0, allow_nan=False, width=64)), "epochs": draw(st.integers(1, 3)),
-            "gamma": draw(st.one_of(st.none(), st.floats(0.1, 0.9, allow_nan=False, width=64))), "torch_seed": draw(st.integers(0, 2 ** 31 - 1))}
+            "gamma": draw(st.one_of(st.none(), st.floats(0.1, 0.9, allow_nan=False, width=64))), "torch_seed": draw(st.integers(0, 2 ** 31 - 1)),
+            "se": draw(st.sampled_from([1, 1, 0, 2, 3, 5]))}
 
 
 NAMES = {"weights": "W", "weights_W": "W", "weights_U": "U", "visible_bias": "b", "hidden_bias": "c", "aux_bias": "d"}
@@ -109,15 +110,19 @@ def check(case):
     state.rbm_am.gibbs_steps = gs
     from qucumber.callbacks import LambdaCallback
     cb = LambdaCallback(on_epoch_start=lambda s, e: log["epochs"].append(e))
+    guard, diverged = gen.divergence_guard()
     qucumber.set_random_seed(case["torch_seed"], cpu=True, gpu=False, quiet=True)
-    kw = dict(epochs=case["epochs"], pos_batch_size=case["pbs"], neg_batch_size=case["nbs"], k=case["k"], lr=case["lr"],
-              optimizer=RecSGD, callbacks=[cb])
+    se = case.get("se", 1)       # starting_epoch: `epochs` is the index of the last epoch, so se + epochs - 1 keeps the epoch count
+    kw = dict(epochs=se + case["epochs"] - 1, starting_epoch=se, pos_batch_size=case["pbs"], neg_batch_size=case["nbs"], k=case["k"], lr=case["lr"],
+              optimizer=RecSGD, callbacks=[cb, guard])
     if case["gamma"] is not None:
         kw.update(scheduler=torch.optim.lr_scheduler.StepLR, scheduler_args={"step_size": 1, "gamma": case["gamma"]})
     if t != "positive":
         kw["input_bases"] = bases
     state.fit(data, **kw)
 
+    if diverged[0]:
+        return {"nontrivial": False, "excluded": 1, "labels": ["diverged"]}
     nb = -(-N // case["pbs"])
     steps = log["steps"]
     require(len(steps) == nb * case["epochs"], "step-count", f"{len(steps)} optimizer steps for {case['epochs']} epoch(s) of {nb} batch(es): exactly one step per batch expected")
@@ -175,7 +180,7 @@ def check(case):
     nt = (nbs != case["pbs"]) and tail and case["k"] >= 1 and followed >= 2 and (t == "positive" or rotated_seen) and gen.all_biases_nonzero(sc)
     return {"nontrivial": nt, "excluded": excluded,
             "labels": [f"type={t}"] + (["neg!=pos"] if nbs != case["pbs"] else []) + (["tail_batch"] if tail else []) + ([f"k={case['k']}"]) +
-                      (["scheduler"] if case["gamma"] is not None else []) + (["multi_epoch"] if case["epochs"] > 1 else [])}
+                      (["scheduler"] if case["gamma"] is not None else []) + ([f"starting_epoch={se}"] if se != 1 else []) + (["multi_epoch"] if case["epochs"] > 1 else [])}
 
 
 SUBCHECKS = [Sub("cd_update", check, strategy=lambda tier: runs(tier), quick=320, thorough=6000)]
